@@ -61,11 +61,13 @@ def main():
             elif out.returncode != 0:
                 status = f"HARNESS rc={out.returncode}"
                 print(out.stdout[-1500:], out.stderr[-1500:])
+            if m.get("expect") == "conforms" and status == "MISSED":
+                status = "CONFORMS"  # withdrawn mutant: the change does not violate the statement, silence is right
             results.append((m, status, (oracle[:1], rep)))
             print(f"{m['id']:42s} {m['property']} {status:8s} {oracle[:1]} {rep}", flush=True)
         finally:
             shutil.rmtree(scratch, ignore_errors=True)
-    missed = [m["id"] for m, s, _ in results if s != "CAUGHT"]
+    missed = [m["id"] for m, s, _ in results if s not in ("CAUGHT", "CONFORMS")]
     print(f"{len(results) - len(missed)}/{len(results)} caught; missed: {missed}")
     return 1 if missed else 0
 
